@@ -228,13 +228,73 @@ impl Property for C09 {
                 return Err((Failure::new(format!("small-scope exhaustive search: {}", e)).with_detail(json!({"documents": docs})), json!({"small_scope_documents": docs})));
             }
         }
+        // sort keys: every ordered triple of names whose order depends on how prefixes, digits, separators, case and
+        // non-ASCII letters are compared, as children (with an attribute each, so they get structs) and as attributes
+        {
+            const TRICKY: &[&str] = &["a", "a1", "a:x", "a-b", "a.b", "A", "ab", "a:b:c", "ns:a", "ns1:a", "ns-1:a", "é", "Z", "_a", "a_", "a1:x", "B", "b"];
+            let mut docs: Vec<Node> = Vec::new();
+            for x in 0..TRICKY.len() {
+                for y in 0..TRICKY.len() {
+                    for z in 0..TRICKY.len() {
+                        if x == y || y == z || x == z {
+                            continue;
+                        }
+                        // no two names of one element may be equal after prefix removal (domain of the statement's reference model)
+                        let locals: Vec<&str> = [x, y, z].iter().map(|i| local_of(TRICKY[*i])).collect();
+                        if locals[0] == locals[1] || locals[1] == locals[2] || locals[0] == locals[2] {
+                            continue;
+                        }
+                        let names = [TRICKY[x], TRICKY[y], TRICKY[z]];
+                        docs.push(Node {
+                            name: "r".into(),
+                            attrs: vec![],
+                            items: names.iter().map(|n| crate::model::Item::Child(Node { name: n.to_string(), attrs: vec!["k".into()], items: vec![] })).collect(),
+                        });
+                        docs.push(Node { name: "r".into(), attrs: names.iter().map(|n| n.to_string()).collect(), items: vec![] });
+                    }
+                }
+            }
+            let (evals, nts, fail) = super::smallscope::run_tuples_over(docs, 1, small_oracle);
+            st.evaluations += evals;
+            st.nontrivial_enumerated += nts;
+            st.add("exhaustive.sort_key_triples", evals);
+            if let Some((e, docs)) = fail {
+                return Err((Failure::new(format!("sort-key family: {}", e)).with_detail(json!({"documents": docs})), json!({"small_scope_documents": docs})));
+            }
+        }
         Ok(())
+    }
+    fn replay_custom(&self, payload: &Value) -> Result<(), Failure> {
+        // canonical documents; C03's replay rebuilds the DOM only for the a/b alphabet, so re-check orders on the parsed tree directly
+        let docs: Vec<Vec<u8>> = payload["small_scope_documents"].as_array().map(|a| a.iter().map(|d| d.as_str().unwrap_or("").as_bytes().to_vec()).collect()).unwrap_or_default();
+        let root = crate::sut::parse_seq(&docs).map_err(|(i, e)| Failure::new(format!("document #{} rejected: {}", i + 1, e)))?;
+        let mut trees = Vec::new();
+        for by_name in [false, true] {
+            let src = root.to_serde_struct(&sut::opts_quick(by_name, "Serialize, Deserialize"));
+            let defs = crate::rendered::read_lines(&src).map_err(Failure::new)?;
+            trees.push((crate::rendered::build_tree(&defs, "@", "$text").map_err(Failure::new)?, src));
+        }
+        same_up_to_order(&trees[0].0, &trees[1].0, "").map_err(Failure::new)?;
+        // sorted rendering: bound names ascending by full XML name cannot be rebuilt without the DOM; compare with the element tree
+        fn sorted_ok(e: &crate::sut::Element<String>, r: &RNode) -> Result<(), String> {
+            let full: Vec<String> = r.children.iter().filter_map(|f| e.children().iter().map(|c| c.inner_t().name.clone()).find(|n| local_of(n) == f.bound)).collect();
+            if full.windows(2).any(|w| w[0] > w[1]) {
+                return Err(format!("children of struct {} are not ascending by XML name: {:?}", r.struct_name, full));
+            }
+            for f in &r.children {
+                if let (Some(sub), Some(ce)) = (&f.node, e.children().iter().map(|c| c.inner_t()).find(|c| local_of(&c.name) == f.bound)) {
+                    sorted_ok(ce, sub)?;
+                }
+            }
+            Ok(())
+        }
+        sorted_ok(&root, &trees[1].0).map_err(Failure::new)
     }
     fn exhaustive(&self) -> bool {
         true
     }
     fn rule(&self) -> String {
-        "small-scope exhaustive: all ordered pairs / triples of small documents (as C03); sampled: tape-decoded document sequences (all name classes, full surface variation, 1 in 8 wide); both sort options are rendered, read back into struct trees (struct items consumed in pre-order of the field order) and compared with the reference first-appearance orders (unsorted) and with ascending full XML names (sorted); the two renderings must agree on everything but order. Non-trivial = some later occurrence introduces two or more new attributes or children at once, or a position with three or more children has an optional child; distinct by hash of the structural documents.".into()
+        "small-scope exhaustive: all ordered pairs / triples of small documents (as C03); a sort-key family (every ordered triple of 18 names whose relative order depends on how prefixes, digits, separators, case and non-ASCII letters compare, as children and as attributes); sampled: tape-decoded document sequences (all name classes, full surface variation, 1 in 8 wide); both sort options are rendered, read back into struct trees (struct items consumed in pre-order of the field order) and compared with the reference first-appearance orders (unsorted) and with ascending full XML names (sorted); the two renderings must agree on everything but order. Non-trivial = some later occurrence introduces two or more new attributes or children at once, or a position with three or more children has an optional child; distinct by hash of the structural documents.".into()
     }
     fn assumptions(&self) -> Vec<String> {
         vec![
